@@ -801,6 +801,26 @@ func (r *poolRun) streamOpen(a string) {
 	r.step(before, fmt.Sprintf("[OpStreamOpen %d %s %s]", r.addrIdx(a), coqBool(ok), optNat(got)), fmt.Sprintf("StreamOpen %s on conn %d", a, got))
 }
 
+// a stream open the server refuses (unknown method): for the pool it is a completed exchange — the
+// connection it used is left with no occupant, however early in the connection's life it happened
+func (r *poolRun) streamRefused(a string) {
+	before := r.before()
+	ok := r.up(a)
+	s, err := r.t.NewStream(a, "Svc.NoSuchStream")
+	if err == nil {
+		s.Close()
+		r.e.fail("C06-unknown-stream-method-accepted", fmt.Sprintf("NewStream to %s for a method the server does not have succeeded", a), r.replay())
+		return
+	}
+	r.checkShutdownConsumed(a, err)
+	r.step(before, fmt.Sprintf("[OpCall %d %s None %s %s]", r.addrIdx(a), coqBool(ok), coqBool(err == rpc.ErrDial), coqBool(err == rpc.ErrShutdown)), fmt.Sprintf("StreamOpen (refused) %s -> %v", a, err))
+	if err == rpc.ErrDial || err == rpc.ErrShutdown {
+		r.lastErr = err
+	} else {
+		r.lastErr = nil
+	}
+}
+
 // close a kept stream: on a live connection the close is acknowledged and the occupant leaves; on a
 // connection that has ended the close fails and the stream stays in the connection's table
 func (r *poolRun) streamClose(k int) {
@@ -1070,6 +1090,10 @@ func (r *poolRun) script(i int) {
 		r.close()
 		return
 	}
+	if i%3 == 1 {
+		// the very first exchange on a fresh connection is a refused stream open
+		r.streamRefused(r.addrs[e.Rng.Intn(len(r.addrs))])
+	}
 	if r.cfg[2] < r.cfg[3] && (i%2 == 0 || r.prop == "C15") { // KeepAlive < IdleConnTimeout: parked connections stay a while
 		r.busyFront(r.addrs[0])
 	}
@@ -1105,7 +1129,9 @@ func (r *poolRun) script(i int) {
 				}
 			}
 		case x < 52:
-			if len(r.streams) < 2 && r.up(a) {
+			if e.Rng.Intn(3) == 0 {
+				r.streamRefused(a)
+			} else if len(r.streams) < 2 && r.up(a) {
 				r.streamOpen(a)
 			}
 		case x < 55:
